@@ -125,6 +125,7 @@ type Engine struct {
 	Races           map[string]string
 	Reached         map[string]bool
 	snapCodec       string
+	Bounds          map[string]int // harness size parameters overriding the quick-tier defaults (vrt.Bound)
 	WitnessWanted   bool
 	ReportAll       bool
 	Progress        bool
